@@ -28,7 +28,7 @@ def plan(tier):
             "required_classes": ["qn-one", "qn-two", "sector:extreme", "op:add", "op:compress-truncating", "op:compress-limit-1",
                                  "op:apply-charged", "op:conj_trans-apply", "op:canonicalise-stop", "op:dmrg-1site", "op:dmrg-2site",
                                  "op:evolve", "op:evolve-imag", "op:mpdm", "operator-labels", "tree", "op:dmrg-tree",
-                                 "tree-scheme:tdvp_ps2", "tree-scheme:tdvp_vmf", "sector:zero-with-signed-labels",
+                                 "tree-scheme:tdvp_ps2", "tree-scheme:tdvp_vmf", "sector:zero-with-signed-labels", "tree-sector:total-label-zero",
                                  "state:equal-weight-sum-of-basis-states"],
             "required_counters": {"label_checks": 2000, "sector_checks": 1500, "tree_sector_checks": 100}}
     if tier == "quick":
